@@ -1,5 +1,6 @@
 import Uflow.Lemmas.SysSend
 import Uflow.Lemmas.SysRecv
+import Uflow.Lemmas.SysResync
 
 /-!
 The composed system (C01Sys), part 5: the system invariant `SInv` and its preservation by every step
@@ -29,6 +30,8 @@ structure SInv (b0 w W M : Nat) (s : Sys) : Prop where
   window base of the time the packet was emitted -/
   logbase : ∀ e ∈ s.rcv.log, ∀ em : Emitted, s.hist.emitted[e.uid]? = some em →
     em.uid - pidSub em.sequenceId em.baseAt ≤ e.wb
+  /-- a recorded sync value is a past value of the sender's next id -/
+  syncs : ∀ n id, (n, id) ∈ s.syncs → n ≤ s.hist.emitted.length ∧ id = (b0 + n) % 2^20
 
 theorem sinv_init (w W b a m : Nat) (hW : 0 < W) (hb : b < 2^20) :
     SInv b w W (allocCeil m) (initS w W b a m) where
@@ -49,6 +52,7 @@ theorem sinv_init (w W b a m : Nat) (hW : 0 < W) (hb : b < 2^20) :
   log := by intro e h; cases h
   wbmono := List.Pairwise.nil
   logbase := by intro e h; cases h
+  syncs := by intro n id h; cases h
 
 theorem SndInv.congr {b0 w : Nat} {s s' : Sys} (h : SndInv b0 w s) (h1 : s'.snd = s.snd)
     (h2 : s'.hist = s.hist) (h3 : s'.pend = s.pend) (h4 : s'.net = s.net) : SndInv b0 w s' :=
@@ -88,7 +92,7 @@ theorem sinv_enq {b0 w W M : Nat} {s s' : Sys} (h : SInv b0 w W M s) (d : List N
       have hsnd := sndInv_enq h.snd d c m f hd r hr
       simp only [stepH, Except.ok.injEq] at hr
       subst hr
-      exact ⟨hsnd, h.rcv, h.cinv, h.lo, h.hi, h.seen, h.log, h.wbmono, h.logbase⟩
+      exact ⟨hsnd, h.rcv, h.cinv, h.lo, h.hi, h.seen, h.log, h.wbmono, h.logbase, h.syncs⟩
   · cases hs; exact h
 
 theorem sinv_emit {b0 w W M : Nat} (hw : w < 2^20) {s s' : Sys} (h : SInv b0 w W M s) (f : Nat)
@@ -106,7 +110,7 @@ theorem sinv_emit {b0 w W M : Nat} (hw : w < 2^20) {s s' : Sys} (h : SInv b0 w W
       rw [hst, bindR_ok, hem] at hs
       simp only [Option.toList, List.append_nil, List.flatMap_nil] at hs
       cases hs
-      refine ⟨hsnd.congr rfl rfl rfl rfl, h.rcv, h.cinv, ?_, h.hi, h.seen, h.log, h.wbmono, h.logbase⟩
+      refine ⟨hsnd.congr rfl rfl rfl rfl, h.rcv, h.cinv, ?_, h.hi, h.seen, h.log, h.wbmono, h.logbase, h.syncs⟩
       show s.hist.emitted.length - s1.win.length ≤ _
       rw [hwin]; exact h.lo
     | some pr =>
@@ -116,7 +120,7 @@ theorem sinv_emit {b0 w W M : Nat} (hw : w < 2^20) {s s' : Sys} (h : SInv b0 w W
       simp only [Option.toList, List.flatMap_cons, List.flatMap_nil, List.append_nil] at hs
       cases hs
       refine ⟨hsnd.congr rfl rfl rfl rfl, h.rcv, h.cinv.mono _, ?_, ?_, h.seen,
-        fun e he => (h.log e he).mono _, h.wbmono, ?_⟩
+        fun e he => (h.log e he).mono _, h.wbmono, ?_, ?_⟩
       rotate_left 2
       · intro e hm em hem
         have hem' : (s.hist.emitted ++ [mkEmitted s.snd f p])[e.uid]? = some em := hem
@@ -125,6 +129,12 @@ theorem sinv_emit {b0 w W M : Nat} (hw : w < 2^20) {s s' : Sys} (h : SInv b0 w W
           rw [← h.snd.plen]; exact (List.getElem?_eq_some_iff.mp hp0).1
         rw [List.getElem?_append_left hlt] at hem'
         exact h.logbase e hm em hem'
+      · intro n id hm
+        obtain ⟨h1, h2⟩ := h.syncs n id hm
+        refine ⟨?_, h2⟩
+        show n ≤ (s.hist.emitted ++ [mkEmitted s.snd f p]).length
+        rw [List.length_append, List.length_singleton]
+        omega
       · show (s.hist.emitted ++ [mkEmitted s.snd f p]).length - s1.win.length ≤ s.rcv.adv
         rw [List.length_append, List.length_singleton, hwin]
         have := h.lo
@@ -166,7 +176,7 @@ theorem sinv_deliver {b0 w W M : Nat} (hW : WOk W) (hw : w < 2^20) {s s' : Sys} 
           unfold Fresh at hfresh
           rw [h.rcv.inv.wsz] at hfresh
           exact pos_arith b0 _ i w W hw (by omega) hfresh hlt) hd
-        exact ⟨h.snd.congr rfl rfl rfl rfl, hg', hc', h.lo, h.hi, h.seen, h.log, h.wbmono, h.logbase⟩
+        exact ⟨h.snd.congr rfl rfl rfl rfl, hg', hc', h.lo, h.hi, h.seen, h.log, h.wbmono, h.logbase, h.syncs⟩
     · cases hs; exact h
 
 theorem sinv_recv {b0 w W M : Nat} (hW : WOk W) {s s' : Sys} (h : SInv b0 w W M s)
@@ -187,7 +197,7 @@ theorem sinv_recv {b0 w W M : Nat} (hW : WOk W) {s s' : Sys} (h : SInv b0 w W M 
       have hadv : s.rcv.adv ≤ s.pend.length := by rw [h.snd.plen]; exact h.hi
       obtain ⟨hc', hevs, hle, -⟩ := receiveT_cinv hW h.rcv.inv h.rcv.ord h.rcv.gi h.cinv hadv
         (show receiveT s.rcv.st = .ok (pr.1, pr.2) from hr)
-      refine ⟨h.snd.congr rfl rfl rfl rfl, hg', hc', ?_, ?_, ?_, ?_, ?_, ?_⟩
+      refine ⟨h.snd.congr rfl rfl rfl rfl, hg', hc', ?_, ?_, ?_, ?_, ?_, ?_, h.syncs⟩
       · have := h.lo
         show s.hist.emitted.length - s.snd.win.length ≤ s.rcv.adv + pidSub pr.1.baseId s.rcv.st.baseId
         omega
@@ -243,7 +253,9 @@ theorem sinv_ack {b0 w W M : Nat} (hw : w < 2^20) {s s' : Sys} (h : SInv b0 w W 
         have hh' : r2 = s.hist := hh
         subst hh'
         have hi' : HInv b0 w r1 s.hist := hsnd.hinv
-        refine ⟨hsnd, h.rcv, h.cinv, ?_, h.hi, h.seen, h.log, h.wbmono, h.logbase⟩
+        refine ⟨hsnd, h.rcv, h.cinv, ?_, h.hi, h.seen, h.log, h.wbmono, h.logbase, ?_⟩
+        rotate_left
+        · exact h.syncs
         show s.hist.emitted.length - r1.win.length ≤ s.rcv.adv
         rcases hb with hb | hb
         · have hb' : r1 = s.snd := hb
@@ -259,6 +271,92 @@ theorem sinv_ack {b0 w W M : Nat} (hw : w < 2^20) {s s' : Sys} (h : SInv b0 w W 
           omega
     · cases hs; exact h
 
+theorem sinv_sync {b0 w W M : Nat} {s s' : Sys} (h : SInv b0 w W M s)
+    (hs : stepS s .sync = .ok s') : SInv b0 w W M s' := by
+  simp only [stepS] at hs
+  split at hs
+  · cases hs
+    refine ⟨h.snd.congr rfl rfl rfl rfl, h.rcv, h.cinv, h.lo, h.hi, h.seen, h.log, h.wbmono, h.logbase, ?_⟩
+    intro n id hm
+    have hm' : (n, id) ∈ s.syncs ++ [(s.hist.emitted.length, s.snd.nextId)] := hm
+    rcases List.mem_append.mp hm' with hm' | hm'
+    · exact h.syncs n id hm'
+    · simp only [List.mem_singleton, Prod.mk.injEq] at hm'
+      obtain ⟨rfl, rfl⟩ := hm'
+      refine ⟨Nat.le_refl _, ?_⟩
+      rw [h.snd.hinv.nid]
+      simp only [pidAdd, PACKET_ID_SPAN]
+      omega
+  · cases hs; exact h
+
+/-- What a `resync` step that is not refused does to the receiver: nothing, or one `advance_window`
+to an id `nb` whose unwrapped value is at most the sync value `n`, passing only slots without the
+entry flag. -/
+theorem resync_cases {b0 w W M : Nat} (hw : w < 2^20) {s : Sys} (h : SInv b0 w W M s) (n id : Nat)
+    (hm : (n, id) ∈ s.syncs) (hfresh : SyncFresh s n) (st' : PRecv.State)
+    (hr : resynchronize s.rcv.st id = .ok st') :
+    st' = s.rcv.st ∨
+    ∃ nb, nb < 2^20 ∧ s.rcv.adv + pidSub nb s.rcv.st.baseId ≤ n ∧ pidSub nb s.rcv.st.baseId ≤ W ∧
+      advanceWindow s.rcv.st nb = .ok st' ∧
+      (∀ x, x < 2^20 → pidSub x s.rcv.st.baseId < pidSub nb s.rcv.st.baseId →
+        (lget s.rcv.st.slots (wi W x)).entryFlag = false) := by
+  obtain ⟨hn, hid⟩ := h.syncs n id hm
+  rcases resynchronize_shape h.rcv.inv id hr with rfl | ⟨-, hidW, nb, hnb, hle, hadv, hno, -⟩
+  · exact Or.inl rfl
+  · right
+    obtain ⟨-, w2, -⟩ := hinv_win h.snd.hinv hw
+    have hlo := h.lo
+    unfold SyncFresh at hfresh
+    rw [h.rcv.inv.wsz] at hfresh
+    rw [hid, h.rcv.gi.gbase] at hidW hle
+    obtain ⟨a1, a2⟩ := sync_arith b0 s.rcv.adv n W hfresh (by omega) hidW
+    rw [a2] at hle
+    rw [← h.rcv.gi.gbase] at hle
+    exact ⟨nb, hnb, by omega, by omega, hadv, hno⟩
+
+theorem sinv_resync {b0 w W M : Nat} (hW : WOk W) (hw : w < 2^20) {s s' : Sys} (h : SInv b0 w W M s)
+    (k : Nat) (hs : stepS s (.resync k) = .ok s') : SInv b0 w W M s' := by
+  simp only [stepS] at hs
+  split at hs
+  · cases hs; exact h
+  · rename_i n id hk
+    split at hs
+    · rename_i hfresh
+      cases hg : stepT s.rcv (.resync id) with
+      | error t => rw [hg] at hs; cases hs
+      | ok g =>
+        rw [hg, bindR_ok] at hs
+        cases hs
+        have hg' : GInv W M b0 g := stepT_ginv hW h.rcv (.resync id) hg
+        rw [stepT_resync] at hg
+        cases hr : resynchronize s.rcv.st id with
+        | error t => rw [hr] at hg; cases hg
+        | ok st' =>
+          rw [hr, bindR_ok] at hg
+          cases hg
+          have hc' := resynchronize_cinv hW h.rcv.inv h.rcv.ord h.cinv id hr
+          have hle : s.rcv.adv + pidSub st'.baseId s.rcv.st.baseId ≤ s.hist.emitted.length := by
+            rcases resync_cases hw h n id (List.mem_of_getElem? hk) hfresh st' hr with rfl | ⟨nb, hnb, h1, h2, hadv, -⟩
+            · rw [pidSub_self]; exact h.hi
+            · have F := advanceWindow_facts hW h.rcv.inv h.rcv.ord nb hnb h2 hadv
+              rw [F.base]
+              have := (h.syncs n id (List.mem_of_getElem? hk)).1
+              omega
+          refine ⟨h.snd.congr rfl rfl rfl rfl, hg', hc', ?_, hle, ?_, h.log, h.wbmono, h.logbase, h.syncs⟩
+          · have := h.lo
+            show s.hist.emitted.length - s.snd.win.length ≤ s.rcv.adv + pidSub st'.baseId s.rcv.st.baseId
+            omega
+          · intro a rb hm
+            have hm' : (a, rb) ∈ s.seen ++ [(s.rcv.adv + pidSub st'.baseId s.rcv.st.baseId, st'.baseId)] := hm
+            show a ≤ s.rcv.adv + pidSub st'.baseId s.rcv.st.baseId ∧ rb = (b0 + a) % 2^20
+            rcases List.mem_append.mp hm' with hm' | hm'
+            · have := h.seen a rb hm'
+              exact ⟨by omega, this.2⟩
+            · simp only [List.mem_singleton, Prod.mk.injEq] at hm'
+              obtain ⟨rfl, rfl⟩ := hm'
+              exact ⟨Nat.le_refl _, hg'.gi.gbase⟩
+    · cases hs; exact h
+
 theorem sinv_step {b0 w W M : Nat} (hW : WOk W) (hw : w < 2^20) {s s' : Sys} (h : SInv b0 w W M s)
     (op : SOp) (hs : stepS s op = .ok s') : SInv b0 w W M s' := by
   cases op with
@@ -267,6 +365,8 @@ theorem sinv_step {b0 w W M : Nat} (hW : WOk W) (hw : w < 2^20) {s s' : Sys} (h 
   | deliver k => exact sinv_deliver hW hw h k hs
   | recv => exact sinv_recv hW h hs
   | ack k => exact sinv_ack hw h k hs
+  | sync => exact sinv_sync h hs
+  | resync k => exact sinv_resync hW hw h k hs
 
 theorem sinv_run {b0 w W M : Nat} (hW : WOk W) (hw : w < 2^20) (ops : List SOp) :
     ∀ {s s' : Sys}, SInv b0 w W M s → runS s ops = .ok s' → SInv b0 w W M s' := by
